@@ -16,6 +16,7 @@ import (
 	"sort"
 	"strings"
 	"sync"
+	"sync/atomic"
 	"time"
 	"verifharness/internal/src"
 
@@ -128,6 +129,21 @@ func c11Rejects() []c11Reject {
 		b, _ := imggen.PNGSpec{W: 7, H: 9, Depth: 8, ColorType: 2, IDAT: []byte{1}}.Build()
 		copy(b[12:16], ct) // first chunk is not IHDR
 		out = append(out, c11Reject{"png first chunk " + ct, []string{"pngmeta", "autometa"}[i%2], b})
+	}
+	// PNGs whose iCCP stream is turned down at its zlib header (nine of them, each a little different),
+	// and well-formed profiled PNGs between and after them
+	for i := 0; i < 9; i++ {
+		sp := pngSpecFor(uint32(20+i), 31, 2, 8, 0, rng)
+		raw := append([]byte{0x12 + byte(i), 0x34}, rng.Bytes(40)...)
+		sp.ICC = &imggen.PNGICC{Name: "b", RawStream: raw, State: "damaged"}
+		b, _ := sp.Build()
+		out = append(out, c11Reject{fmt.Sprintf("png iccp with bad zlib header #%d", i), []string{"pngmeta", "autometa"}[i%2], b})
+		if i%3 == 2 {
+			gp := pngSpecFor(uint32(50+i), 17, 6, 8, 0, rng)
+			gp.ICC = &imggen.PNGICC{Name: "good", Profile: bytes.Repeat([]byte{byte('a' + i)}, 300), Level: 6}
+			gb, _ := gp.Build()
+			out = append(out, c11Reject{fmt.Sprintf("png with a profile #%d", i), "pngmeta", gb})
+		}
 	}
 	out = append(out, c11Reject{"garbage", "autometa", rng.Bytes(64)}, c11Reject{"empty", "autometa", nil}, c11Reject{"text", "autometa", []byte("not an image at all, just text")})
 	vp8l, _ := imggen.WebPSpec{Kind: "VP8L", W: 12, H: 34, Payload: []byte{1, 2, 3, 4}}.Build()
@@ -340,6 +356,43 @@ func c11Step(target string, g, it int, sh *c11Shared) uint64 {
 		s.EncodeImage(dst, src, par)
 		h = hashImage(dst)
 		h = mix(h, hashImage(prism.ConvertImageToRGBA(src, par)))
+	case target == "images-shapes":
+		// shapes for which an implementation might divide the work differently: far wider than high
+		// (fewer rows than workers), a single row, a source of a caller's own type; the result must be
+		// the one a single worker produces
+		if it%40 != 0 {
+			return 0
+		}
+		k := (g + it/40) % 6
+		s := libSpaces[(g+it/40)%len(libSpaces)]
+		shape := [][3]int{{4096, 3, 8}, {2048, 1, 4}, {600, 2, 2}, {1024, 2, 4}, {96, 48, 8}, {33, 96, 2}}[k]
+		r := image.Rect(0, 0, shape[0], shape[1])
+		m := image.NewRGBA64(r)
+		for i := 0; i < len(m.Pix); i += 8 {
+			v := byte(i/8*13 + g*7 + it)
+			m.Pix[i], m.Pix[i+2], m.Pix[i+4], m.Pix[i+6] = v/2, v/3, v, v|0x80
+			m.Pix[i+1], m.Pix[i+3], m.Pix[i+5], m.Pix[i+7] = v, 0, 0, 0xFF
+		}
+		var src image.Image = m
+		if k >= 4 || it%80 == 0 {
+			src = mirroredRGBA64{m} // not a standard-library image type
+		}
+		one, many := image.NewRGBA64(r), image.NewRGBA64(r)
+		if it%80 == 0 {
+			s.LineariseImage(one, src, 1)
+			s.LineariseImage(many, src, shape[2])
+		} else {
+			s.EncodeImage(one, src, 1)
+			s.EncodeImage(many, src, shape[2])
+		}
+		h = hashImage(many)
+		if h1 := hashImage(one); h1 != h {
+			c11AloneMu.Lock()
+			if _, dup := c11AloneMism[-1-k]; !dup {
+				c11AloneMism[-1-k] = fmt.Sprintf("%s image transform of a %d x %d image (%T source) with %d workers differs from the result with one worker", s.Name, shape[0], shape[1], src, shape[2])
+			}
+			c11AloneMu.Unlock()
+		}
 	case target == "shared-objects":
 		// one metadata object / one parsed profile used by all goroutines at once, first use included
 		// (the objects are created before the goroutines start and nobody has asked them anything)
@@ -479,7 +532,7 @@ func float32bits(f float32) uint32 {
 }
 
 var c11Targets = []string{"srgb.from16", "srgb.to16", "srgb.both", "adobergb.from16", "adobergb.to16", "adobergb.both", "prophotorgb.from16", "prophotorgb.to16", "prophotorgb.both",
-	"displayp3", "colors", "tables8", "images", "images-inplace", "images-rgba64", "images-wide", "shared-objects", "convert-premul", "generate", "hash-transform", "convert", "adapt", "loaders", "rejects", "icc", "mixed"}
+	"displayp3", "colors", "tables8", "images", "images-inplace", "images-rgba64", "images-wide", "images-shapes", "shared-objects", "convert-premul", "generate", "hash-transform", "convert", "adapt", "loaders", "rejects", "icc", "mixed"}
 
 func c11Lazy(t string) bool {
 	return strings.Contains(t, ".from16") || strings.Contains(t, ".to16") || strings.Contains(t, ".both") || t == "displayp3" || t == "colors" || t == "mixed"
@@ -522,6 +575,52 @@ func childC11(args []string) int {
 	release := make(chan struct{})
 	var wg sync.WaitGroup
 	var firstDone sync.WaitGroup
+	// a trial whose goroutines all wait for one another never ends. That is decided on goroutine
+	// states, not on time: when no step has completed for three samples in a row, every goroutine
+	// other than this monitor is parked in a channel / lock / wait-group operation and none is
+	// running, runnable or in a system call, nothing in this process can ever wake them (it does no
+	// I/O): the child says so and ends.
+	var progress atomic.Int64
+	stopMon := make(chan struct{})
+	go func() {
+		last, same := int64(-1), 0
+		for {
+			select {
+			case <-stopMon:
+				return
+			case <-time.After(2 * time.Second):
+			}
+			if p := progress.Load(); p != last {
+				last, same = p, 0
+				continue
+			}
+			same++
+			if same < 3 {
+				continue
+			}
+			buf := make([]byte, 4<<20)
+			buf = buf[:runtime.Stack(buf, true)]
+			live, parked := 0, 0
+			for _, blk := range strings.Split(string(buf), "\n\n") {
+				hd := strings.SplitN(blk, "\n", 2)[0]
+				if !strings.HasPrefix(hd, "goroutine ") || strings.Contains(blk, "props.childC11.func") && strings.Contains(hd, "[running]") {
+					continue
+				}
+				st := hd[strings.Index(hd, "[")+1:]
+				switch {
+				case strings.HasPrefix(st, "chan "), strings.HasPrefix(st, "select"), strings.HasPrefix(st, "semacquire"), strings.HasPrefix(st, "sync."), strings.HasPrefix(st, "GC "), strings.HasPrefix(st, "finalizer"), strings.HasPrefix(st, "force gc"), strings.HasPrefix(st, "sleep") && strings.Contains(blk, "core."):
+					parked++
+				default:
+					live++
+				}
+			}
+			if live == 0 && parked > 0 {
+				fmt.Printf("DEADLOCK every goroutine of the trial is parked and none can run; goroutine dump:\n%s\nEND-DEADLOCK\n", truncate(string(buf), 6000))
+				os.Exit(3)
+			}
+		}
+	}()
+	defer close(stopMon)
 	for g := 0; g < n; g++ {
 		wg.Add(1)
 		firstDone.Add(1)
@@ -550,6 +649,7 @@ func childC11(args []string) int {
 			t0[g] = time.Now()
 			h := c11Step(target, g, 0, sh)
 			t1[g] = time.Now()
+			progress.Add(1)
 			fd = true
 			firstDone.Done()
 			if park == 1 && g%2 == 1 {
@@ -560,6 +660,7 @@ func childC11(args []string) int {
 			}
 			for it := 1; it < c11Iters; it++ {
 				h = mix(h, c11Step(target, g, it, sh))
+				progress.Add(1)
 			}
 			sums[g] = h
 		}(g)
@@ -572,6 +673,10 @@ func childC11(args []string) int {
 	}()
 	wg.Wait()
 	for k, m := range c11AloneMism {
+		if k < 0 {
+			fmt.Printf("WORKERS-MISMATCH %s\n", strings.ReplaceAll(m, "\n", " "))
+			continue
+		}
 		fmt.Printf("ALONE-MISMATCH item=%d %s\n", k, strings.ReplaceAll(m, "\n", " "))
 	}
 	// sequential recomputation
@@ -742,6 +847,15 @@ func runC11(r *core.Run) {
 			switch {
 			case strings.HasPrefix(line, "MISMATCH "):
 				r.Violate("value", "value/"+t.Target, fmt.Sprintf("trial %+v: a call returned a different value under concurrency than alone: %s", t, line), t)
+			case strings.HasPrefix(line, "DEADLOCK "):
+				dump := res.out
+				if i := strings.Index(dump, "DEADLOCK "); i >= 0 {
+					dump = dump[i:]
+				}
+				r.Violate("value", "deadlock/"+t.Target, fmt.Sprintf("trial %+v: calls that return when executed alone never returned: %s", t, truncate(dump, 5000)), t)
+				done = true
+			case strings.HasPrefix(line, "WORKERS-MISMATCH "):
+				r.Violate("value", "value-vs-one-worker/"+t.Target, fmt.Sprintf("trial %+v: %s", t, line), t)
 			case strings.HasPrefix(line, "ALONE-MISMATCH "):
 				r.Violate("value", "value-vs-alone/"+t.Target, fmt.Sprintf("trial %+v: a load returned something else than it does when it is the only call of its process: %s", t, line), t)
 			case strings.HasPrefix(line, "PANIC "):
